@@ -511,6 +511,43 @@ fn c10_units(tier: Tier) -> Vec<Unit> {
             ctx.m.fill_pristine();
         },
     ));
+    // ---- queue depth with history: a burst, part of it served, a second burst on top, then drained
+    units.push(Unit::new(
+        "boundary/queue-history",
+        16,
+        "three-phase histories of the pending queue: a requests are raised while masked, b of them are served (I cleared before each boundary), c more are raised, then everything is drained; a over {2^k - 1, 2^k, 2^k + 1 for k = 4..11, 600, 1000}, b over {0, 1, a/2 - 1, a/2, a/2 + 1, a - 1}, c chosen so that the number waiting passes the next one and two powers of two by one: every acceptance enters through a vector that is pending, and at the end every vector was entered exactly as often as it was requested",
+        move |ctx, chunk| {
+            let mut scen: Vec<(u32, u32, u32)> = Vec::new();
+            let mut avals: Vec<u32> = vec![600, 1000];
+            for k in 4..=11u32 {
+                avals.extend([(1 << k) - 1, 1 << k, (1 << k) + 1]);
+            }
+            for &a in avals.iter() {
+                for b in [0u32, 1, a / 2 - 1, a / 2, a / 2 + 1, a - 1] {
+                    let waiting = a - b;
+                    let p = a.next_power_of_two();
+                    for target in [p + 1, 2 * p + 1] {
+                        if target > waiting {
+                            scen.push((a, b, target - waiting));
+                        }
+                    }
+                }
+            }
+            for (i, &(a, b, c)) in scen.iter().enumerate() {
+                if i % 16 != chunk as usize {
+                    continue;
+                }
+                ctx.st.cases += 1;
+                ctx.st.nontrivial += 1;
+                if let Some(msg) = burst3_case(ctx, a, b, c) {
+                    ctx.custom_violation("c10", msg, json!({"burst3": [a, b, c]}), json!(null), json!(null));
+                    if ctx.stop {
+                        return;
+                    }
+                }
+            }
+        },
+    ));
     // ---- queue depth: bursts of N requests raised while I is set, for every N up to 600 and around 2^16
     units.push(Unit::new(
         "boundary/queue-depth",
@@ -582,6 +619,113 @@ pub fn io_boundary_case(ctx: &mut Ctx, a: u32, val: u8, v: u8, ccr: u8) -> Optio
     } else {
         None
     }
+}
+
+/// Three-phase history of the pending queue (unit boundary/queue-history): raise `a` while masked, serve `b`,
+/// raise `c` more, drain.  Per-vector bookkeeping only (no per-step copy of the queue).
+pub fn burst3_case(ctx: &mut Ctx, a: u32, b: u32, c: u32) -> Option<String> {
+    let vec_of = |i: u32| -> u8 { 1 + ((i * 11) % 63) as u8 };
+    let sp0 = 0x00ffe700u32;
+    let mut targets = [0u32; 64];
+    for v in 0..64u32 {
+        targets[v as usize] = (0..4).fold(0u32, |acc, k| (acc << 8) | ctx.m.peek_shadow(4 * v + k).unwrap_or(0) as u32) & 0x00ff_ffff;
+    }
+    let mut requested = [0u32; 64];
+    let mut entered = [0u32; 64];
+    {
+        let cpu = &mut ctx.m.cpu;
+        cpu.er = crate::hv::dom::background_regs();
+        cpu.vh_clear_pending_interrupts();
+    }
+    let mut serve = |ctx: &mut Ctx, entered: &mut [u32; 64], requested: &[u32; 64]| -> Result<bool, String> {
+        {
+            let cpu = &mut ctx.m.cpu;
+            cpu.er[7] = sp0;
+            cpu.vh_set_pc(0x410000);
+            cpu.vh_set_ccr(0x00);
+        }
+        crate::cpu::verif_hooks::bus_write_log_enable(true);
+        let r = ctx.m.cpu.vh_try_interrupt();
+        let mut wl = Vec::new();
+        crate::cpu::verif_hooks::bus_write_log_take(&mut wl);
+        crate::cpu::verif_hooks::bus_write_log_enable(false);
+        for w in wl {
+            if let Some(p) = ctx.m.peek_shadow(w) {
+                if let Some(s) = ctx.m.real_slot(w) {
+                    *s = p;
+                }
+            }
+        }
+        if let Err(e) = r {
+            return Err(format!("an acceptance failed: {:#}", e));
+        }
+        let did = ctx.m.cpu.er[7] == sp0.wrapping_sub(4);
+        if did {
+            let pc = ctx.m.cpu.vh_pc();
+            // which vector was it?  one that is still owed an entry and whose target is PC
+            match (1..64usize).find(|&v| targets[v] == pc && entered[v] < requested[v]) {
+                Some(v) => entered[v] += 1,
+                None => return Err(format!("an entry went to {:06x}, which is not the vector target of any request that is still waiting", pc)),
+            }
+        }
+        Ok(did)
+    };
+    let mut i = 0u32;
+    for _ in 0..a {
+        let v = vec_of(i);
+        i += 1;
+        requested[v as usize] += 1;
+        ctx.m.cpu.vh_set_ccr(0x80);
+        ctx.m.cpu.vh_request_interrupt(v);
+    }
+    let mut fail: Option<String> = None;
+    for k in 0..b {
+        match serve(ctx, &mut entered, &requested) {
+            Ok(true) => {}
+            Ok(false) => {
+                fail = Some(format!("after {} of {} requests were served the next boundary (I clear) accepted nothing", k, a));
+                break;
+            }
+            Err(m) => {
+                fail = Some(m);
+                break;
+            }
+        }
+    }
+    if fail.is_none() {
+        for _ in 0..c {
+            let v = vec_of(i);
+            i += 1;
+            requested[v as usize] += 1;
+            ctx.m.cpu.vh_request_interrupt(v);
+        }
+        let waiting = a - b + c;
+        for k in 0..waiting + 2 {
+            match serve(ctx, &mut entered, &requested) {
+                Ok(true) => {}
+                Ok(false) => {
+                    if k < waiting {
+                        fail = Some(format!("{} requests were waiting, only {} were delivered", waiting, k));
+                    }
+                    break;
+                }
+                Err(m) => {
+                    fail = Some(m);
+                    break;
+                }
+            }
+        }
+    }
+    let left = ctx.m.cpu.vh_pending_interrupts().len();
+    ctx.m.cpu.vh_clear_pending_interrupts();
+    if fail.is_none() {
+        if left != 0 {
+            fail = Some(format!("{} requests are still pending after the queue was drained", left));
+        } else if let Some(v) = (1..64usize).find(|&v| entered[v] != requested[v]) {
+            fail = Some(format!("vector {} was requested {} times and entered {} times", v, requested[v], entered[v]));
+        }
+    }
+    fail.map(|m| format!("history (raise {}, serve {}, raise {}, drain): {}", a, b, c, m))
 }
 
 /// One burst of `n` requests raised while I is set, then drained (unit boundary/queue-depth).
@@ -720,6 +864,17 @@ pub fn replay_c10(case: &Value) -> bool {
         let mut ctx = Ctx::new();
         let g = |k: &str| case[k].as_u64().unwrap_or(0) as u8;
         return match io_boundary_case(&mut ctx, u32::from_str_radix(a, 16).unwrap_or(0), g("value"), g("vector"), g("ccr")) {
+            Some(m) => {
+                println!("FAILS: {}", m);
+                false
+            }
+            None => true,
+        };
+    }
+    if let Some(b3) = case["burst3"].as_array() {
+        let mut ctx = Ctx::new();
+        let g = |k: usize| b3.get(k).and_then(|x| x.as_u64()).unwrap_or(0) as u32;
+        return match burst3_case(&mut ctx, g(0), g(1), g(2)) {
             Some(m) => {
                 println!("FAILS: {}", m);
                 false
